@@ -81,7 +81,10 @@ impl Engine {
                     out.push(l);
                 }
                 Err(RecvTimeoutError::Timeout) => return Err(Fail::Timeout),
-                Err(RecvTimeoutError::Disconnected) => return Err(Fail::Died(format!("{} (output so far: {:?})", self.status_text(), out))),
+                Err(RecvTimeoutError::Disconnected) => {
+                    let tail: Vec<String> = out.iter().rev().take(2).rev().map(|l| if l.len() > 120 { format!("{}...", &l[..120]) } else { l.clone() }).collect();
+                    return Err(Fail::Died(format!("{} (after {} lines of output, the last ones: {:?})", self.status_text(), out.len(), tail)));
+                }
             }
         }
     }
